@@ -19,6 +19,8 @@ func init() {
 }
 
 func runC12(c *Ctx, r *Report) {
+	// the reference time of a file starts empty: per-file decoder state (perfile.go)
+	perFileRule(c, r, "C12-R5-per-file-state", []string{"timestamp", "lastTimeOffset"}, "the reference time of the previous file is used for compressed timestamps and local-time offsets of the next file before its own first timestamp")
 	mask, _ := c.constInt(c.fit, "compressedTimeMask")
 	tsNum, _ := c.constInt(c.fit, "fieldNumTimeStamp")
 	r.check(mask == 0x1F, "C12-R3-constants", "compressedTimeMask", "", "0x1F (5-bit offset, 32 s rollover)", fmt.Sprintf("compressedTimeMask is %#x, the FIT compressed time offset has 5 bits", mask))
@@ -34,6 +36,10 @@ func runC12(c *Ctx, r *Report) {
 			for i, ins := range b.Instrs {
 				st, ok := ins.(*ssa.Store)
 				if !ok || !isFieldOf(st.Addr, "decoder", "timestamp") {
+					continue
+				}
+				if c.isResetStore(st) {
+					r.ok("C12-R2-who-rebases", fmt.Sprintf("%s/timestamp-reset", fn.Name()), c.pos(st.Pos()), "zeroed between files by a function decoding cannot reach")
 					continue
 				}
 				nStores++
